@@ -68,6 +68,7 @@ class Capture:
         self.vols_after_post = None
         self.surfs_after_post = None
         self.cells_after = None       # {id: dict} of the final mcnp cell dictionary
+        self.bc_in = None             # [(id, flag, parts)] of the MCNP surface dictionary
         self.error = None
 
 
@@ -155,6 +156,7 @@ def convert_capture(deck_text, args=()):
             res = orig(*a, **kw)
             try:
                 dic_surf_mcnp, dic_surface_t4, dic_volume, mcnp_new_dict, skipped = res
+                cap.bc_in = [(int(k), str(v[0][0].boundary_cond), len(v)) for k, v in dic_surf_mcnp.items()]
                 cap.vols_after_post = vols_struct(dic_volume)
                 cap.surfs_after_post = sorted(int(k) for k in dic_surface_t4.keys())
                 cap.cells_after = {int(k): dict(mat=str(c.materialID), rho=c.density, imp=c.importance,
